@@ -514,6 +514,7 @@ def lean_checks_text(layout):
          '  packedB  : members tile [0, sizeof) in table order, sizeof % 4 = 0, alignof = 4',
          '  shapesB  : extents x element sizes multiply out; struct-typed members have the size of the struct they name',
          '  flatB    : the flattened (leaf) member list exists and tiles [0, sizeof) as well',
+         '  floatsAlignedB : every float/double leaf starts at a multiple of 4 (README, Message Packing)',
          '-/', 'import FeVerif.Generated.C02CxxLayout', '', 'namespace FeVerif.C02Gen', 'open FeVerif.FixedLayout', '',
          'theorem allNil {p : CxxStruct → Prop} : ∀ s ∈ ([] : List CxxStruct), p s := fun _ h => nomatch h',
          'theorem allCons {p : CxxStruct → Prop} {a : CxxStruct} {l : List CxxStruct} (h : p a) (t : ∀ s ∈ l, p s) :',
@@ -526,9 +527,10 @@ def lean_checks_text(layout):
         L.append('theorem %s_packed : packedB %s = true := by decide' % (ident, ident))
         L.append('theorem %s_shapes : shapesB cxxStructs %s = true := by decide' % (ident, ident))
         L.append('theorem %s_flat : flatB cxxStructs %s = true := by decide' % (ident, ident))
+        L.append('theorem %s_falign : floatsAlignedB cxxStructs %s = true := by decide' % (ident, ident))
     L.append('')
     for suffix, stmt in (('packed', 'packedB s = true'), ('shapes', 'shapesB cxxStructs s = true'),
-                         ('flat', 'flatB cxxStructs s = true')):
+                         ('flat', 'flatB cxxStructs s = true'), ('falign', 'floatsAlignedB cxxStructs s = true')):
         L.append('theorem all_%s : ∀ s ∈ cxxStructs, %s :=' % (suffix, stmt))
         L.append('  ' + ' <| '.join('allCons %s_%s' % (i, suffix) for i in idents) + (' <| ' if idents else '') + 'allNil')
         L.append('')
